@@ -1033,6 +1033,75 @@ class TrHeader(Tr):
         return super().stmt0(s, ind)
 
 
+class TrPhoenix(Tr):
+    """`_parse_phoenix_line`: strings are `Phx.Str` (lists of characters), indices and lengths integers (`find` gives -1).
+    The string methods are the functions of `Model/Phoenix.lean`: `s.find(x)` → `Phx.findI`, `s.count(x)` → `Phx.countSub`,
+    `s.strip()` → `Phx.strip`, `s.startswith(x)` → `isPrefixOf`, `s[a:b]` → `Phx.pySlice` (Python's rules for negative and
+    oversized bounds), `int(s)` / `int(s, 16)` / `float(s)` → `Phx.pyInt` / `Phx.pyIntHex` / `Phx.pyFloatOk` (the exact
+    integer, or the accepted lexeme).  `raise PhoenixParseError` is the result `POut.parseError`."""
+    STR_NAMES = {'line', 'str_delim', 'key', 'val_str'}
+
+    def lit(self, c):
+        if len(c) == 1:
+            return "['%s']" % c.replace("'", "\\'")
+        return '(%s).toList' % json.dumps(c)
+
+    def e(self, n):
+        if isinstance(n, ast.Constant) and isinstance(n.value, str):
+            return '[]' if n.value == '' else self.lit(n.value)
+        if isinstance(n, ast.Constant) and isinstance(n.value, int) and not isinstance(n.value, bool):
+            return '(%d : Int)' % n.value
+        if isinstance(n, ast.UnaryOp) and isinstance(n.op, ast.USub) and isinstance(n.operand, ast.Constant):
+            return '(-%d : Int)' % n.operand.value
+        if isinstance(n, ast.Call) and isinstance(n.func, ast.Name) and n.func.id == 'len' and len(n.args) == 1:
+            return '((%s).length : Int)' % self.e(n.args[0])
+        if isinstance(n, ast.Call) and isinstance(n.func, ast.Attribute) and len(n.args) <= 1 and not n.keywords:
+            recv, meth = self.atom(n.func.value), n.func.attr
+            if meth == 'find' and len(n.args) == 1:
+                return '(Phx.findI %s %s)' % (self.atom(n.args[0]), recv)
+            if meth == 'count' and len(n.args) == 1:
+                return '((Phx.countSub %s %s : Nat) : Int)' % (self.atom(n.args[0]), recv)
+            if meth == 'strip' and not n.args:
+                return '(Phx.strip %s)' % recv
+            if meth == 'startswith' and len(n.args) == 1:
+                return '((%s).isPrefixOf %s)' % (self.e(n.args[0]), recv)
+        if isinstance(n, ast.Subscript) and isinstance(n.slice, ast.Slice) and n.slice.step is None:
+            base = self.atom(n.value)
+            lo = '(0 : Int)' if n.slice.lower is None else self.atom(n.slice.lower)
+            hi = '((%s).length : Int)' % base if n.slice.upper is None else self.atom(n.slice.upper)
+            return '(Phx.pySlice %s %s %s)' % (lo, hi, base)
+        return super().e(n)
+
+    def atom(self, n):
+        s_ = self.e(n)
+        return s_ if (s_.isalnum() or s_.replace('_', '').isalnum() or s_.startswith('(') or s_.startswith('[')) else '(%s)' % s_
+
+    def stmt0(self, s, ind):
+        if isinstance(s, ast.Raise):
+            return ['%sreturn Phx.POut.parseError' % ind]
+        if isinstance(s, ast.Try) and len(s.body) == 1 and isinstance(s.body[0], ast.Assign) and len(s.handlers) == 1 \
+                and self.src(s.handlers[0].type) == 'ValueError' and len(s.handlers[0].body) == 1 \
+                and isinstance(s.handlers[0].body[0], ast.Pass) and len(s.orelse) == 1 and isinstance(s.orelse[0], ast.Return) \
+                and not s.finalbody:
+            # try: val = conv(x) / except ValueError: pass / else: return (key, val)
+            call = self.src(s.body[0].value)
+            conv = {'int(val_str)': ('Phx.pyInt val_str', 'Phx.PVal.int v_'),
+                    'int(val_str, 16)': ('Phx.pyIntHex val_str', 'Phx.PVal.int v_'),
+                    'float(val_str)': ('(if Phx.pyFloatOk val_str then some val_str else none)', 'Phx.PVal.floatLex v_')}
+            if call in conv and self.src(s.orelse[0].value) == '(key, val)':
+                return ['%sif let some v_ := %s then' % (ind, conv[call][0]), '%s  return Phx.POut.pair key (%s)' % (ind, conv[call][1])]
+            raise Unsupported('try statement: ' + call)
+        if isinstance(s, ast.Return):
+            if isinstance(s.value, ast.Constant) and s.value.value is None:
+                return ['%sreturn Phx.POut.none' % ind]
+            if isinstance(s.value, ast.Tuple) and len(s.value.elts) == 2 and self.src(s.value.elts[0]) == 'key':
+                return ['%sreturn Phx.POut.pair key (Phx.PVal.str %s)' % (ind, self.atom(s.value.elts[1]))]
+            raise Unsupported('return ' + self.src(s.value))
+        if isinstance(s, ast.Assign) and self.src(s.targets[0]) == 'val' and isinstance(s.value, ast.Constant) and s.value.value is None:
+            return []
+        return super().stmt0(s, ind)
+
+
 class TrChkOrder(Tr):
     """the thorough check of `_chk_order`: `_files_info[i][1]` is the sorting tuple (vector, time, position)"""
     PROJ = {0: '.1', 1: '.2.1', 2: '.2.2'}
@@ -1199,6 +1268,7 @@ GROUP_OF = {
     'copy_slice_dest': 'values', 'copy_slice_vals': 'values', 'get_changed_class': 'values',
     'copy_slice': 'subset', 'copy_sample': 'subset', 'get_subset_key': 'subset',
     'reclassify': 'insert', 'insert_dispatch': 'insert', 'change_class': 'insert', 'insert_slice': 'insert', 'insert_non_slice': 'insert', 'insert_sample': 'insert',
+    'parse_phoenix_line': 'phoenix',
     'header_slice_times': 'header', 'header_dim_info': 'header',
     'chk_equal': 'stackadd', 'chk_close': 'stackadd', 'chk_congruent': 'stackadd', 'add_dcm': 'stackadd',
     'get_data_trim': 'data', 'file_idx_volume': 'data', 'file_idx_slice': 'data', 'get_data': 'data',
@@ -1219,6 +1289,7 @@ GROUP_IMPORTS = {
     'subset': ['DcmVerif.Generated.Code_values', 'DcmVerif.Generated.Code_simplify'],
     'stackadd': ['DcmVerif.Generated.PyPrelude', 'DcmVerif.Model.StackAdd'],
     'header': ['DcmVerif.Generated.PyPrelude'],
+    'phoenix': ['DcmVerif.Generated.PyPrelude', 'DcmVerif.Model.Phoenix'],
 }
 GEN_DIR = os.environ.get('GEN_CODE_DIR', os.path.normpath(os.path.join(HERE, '..', 'lean', 'DcmVerif', 'Generated')))
 
@@ -1248,8 +1319,8 @@ def translate():
     def emit(name, sig, fn_body, tr, doc, prologue=(), run='do'):
         out.cur = group_of(name)
         try:
-            tr.mutable = tr.assigned_more_than_once(fn_body)
-            tr.declared = []
+            tr.mutable = tr.assigned_more_than_once(fn_body) | set(getattr(tr, 'pre_declared', ()))
+            tr.declared = [set(getattr(tr, 'pre_declared', ()))]
             lines = ['  ' + l for l in prologue] + tr.block(fn_body, '  ')
             out.append('/-- %s -/' % doc)
             out.append('def %s %s := %s' % (name, sig, run))
@@ -1894,6 +1965,18 @@ def translate():
              'the repetition time and the `dim_info` that `DicomStack.to_nifti` writes (dcmstack.py): `_repetition_times` / '
              '`_phase_enc_dirs` are the sets as lists (phase direction 0 = ROW), the dictionary `dim_info` is its three entries, '
              '`pixdim[4]` the first component of the result')
+    # ---- _parse_phoenix_line (group `phoenix`)
+    ex = ast.parse(open(os.path.join(REPO, 'src', 'dcmstack', 'extract.py')).read())
+    f = find_func(ex, None, '_parse_phoenix_line')
+    if f is None:
+        missing.append('parse_phoenix_line: not found')
+    else:
+        tr = TrPhoenix({}, {})
+        tr.pre_declared = {'line'}
+        emit('parse_phoenix_line', '(line0 : Phx.Str) (str_delim : Phx.Str) : Phx.POut', f.body, tr,
+             '`_parse_phoenix_line` (extract.py), translated statement by statement over lists of characters; the string methods and '
+             'number conversions are the functions of `Model/Phoenix.lean`',
+             prologue=['let mut line := line0'], run='Id.run do')
     # ---- check_valid
     f = find_func(dm, 'DcmMetaExtension', 'check_valid')
     if f is None:
